@@ -112,7 +112,7 @@ def configs(tier):
     out = []
     for pol in (1, 2):
         for noise in (False, True):
-            for n in ((1, 2) if q else (1, 2, 3, 5)):
+            for n in ((1, 2) if q else (1, 2, 3, 5, 8)):
                 if q and n == 2 and pol == 2 and not noise:
                     continue
                 out.append((f'edfa-pol{pol}-{"noise" if noise else "clean"}-n{n}', scen_edfa, dict(n=n, pol=pol, noise=noise), {}))
